@@ -512,6 +512,8 @@ private:
   static compact_theta_sketch_alloc deserialize_v2(uint8_t preamble_longs, std::istream& is, uint64_t seed, const Allocator& allocator);
   static compact_theta_sketch_alloc deserialize_v3(uint8_t preamble_longs, std::istream& is, uint64_t seed, const Allocator& allocator);
   static compact_theta_sketch_alloc deserialize_v4(uint8_t preamble_longs, std::istream& is, uint64_t seed, const Allocator& allocator);
+  static void grow_entries(std::vector<uint64_t, Allocator>& entries, uint32_t num_entries);
+  static std::vector<uint64_t, Allocator> read_entries(std::istream& is, uint32_t num_entries, const Allocator& allocator);
 
   virtual void print_specifics(std::ostringstream& os) const;
 
